@@ -2898,6 +2898,7 @@ static void InitCode_65(void) {
 
     CLI_SEI_Flag = False;
     ADC_SBC_Flag = False;
+    RegB         = 0;
     for (z = 0; z < 8; z++) {
         MPR[z] = z;
     }
